@@ -10,6 +10,7 @@ CONSTANTS
  KeepSets <- MC_NoSets
  OpKinds <- MC_NoOps
  Recheck = TRUE
+ ClearSkipsBusy = FALSE
 INVARIANTS TypeOK AtMostOne SameStorage NoSharing LookupComplete DeleteTruthful ListingExact RemovalExact
 POSTCONDITION TraceAccepted
 CHECK_DEADLOCK FALSE
